@@ -67,10 +67,10 @@ type BigClass struct {
 	// expected to refuse (panic) at that site already.
 	OvfLo, OvfHi int
 	Site         string
-	// MaxSpan bounds N*mean(stride) so that the glyph ids stay in range:
-	// the largest number of glyph ids taken from the spread per unit of N.
-	PerN  int
-	Build func(p BigParams) gtab.Subtable
+	// Scattered: the builder takes its N glyphs with every stride enlarged
+	// by one (no runs, coverage format 1).
+	Scattered bool
+	Build     func(p BigParams) gtab.Subtable
 }
 
 func seqAct(salt, i int) []gtab.SeqLookup {
@@ -91,7 +91,7 @@ func classesUpTo(gg []glyph.ID) classdef.Table {
 // BigClasses lists the large-subtable families, GSUB first.
 var BigClasses = []BigClass{
 	{Name: "gsub1_2", Kind: gtab.TypeGsub, Format: 12, Lo: 4000, Hi: 32764, OvfLo: 32765, OvfHi: 33500,
-		Site: "Gsub1_2.coverageOffset", PerN: 1,
+		Site: "Gsub1_2.coverageOffset", 
 		Build: func(p BigParams) gtab.Subtable {
 			gg := p.glyphs(p.N)
 			sub := make([]glyph.ID, p.N)
@@ -101,7 +101,7 @@ var BigClasses = []BigClass{
 			return &gtab.Gsub1_2{Cov: CovTable(gg), SubstituteGlyphIDs: sub}
 		}},
 	{Name: "gsub2_1", Kind: gtab.TypeGsub, Format: 21, Lo: 2000, Hi: 8000, OvfLo: 8300, OvfHi: 9000,
-		Site: "Gsub2_1.sequenceOffset", PerN: 1,
+		Site: "Gsub2_1.sequenceOffset", 
 		Build: func(p BigParams) gtab.Subtable {
 			gg := p.glyphs(p.N)
 			repl := make([][]glyph.ID, p.N)
@@ -115,7 +115,7 @@ var BigClasses = []BigClass{
 			return &gtab.Gsub2_1{Cov: CovTable(gg), Repl: repl}
 		}},
 	{Name: "gsub3_1", Kind: gtab.TypeGsub, Format: 31, Lo: 2000, Hi: 8000, OvfLo: 8300, OvfHi: 9000,
-		Site: "Gsub3_1.alternateSetOffset", PerN: 1,
+		Site: "Gsub3_1.alternateSetOffset", 
 		Build: func(p BigParams) gtab.Subtable {
 			gg := p.glyphs(p.N)
 			alt := make([][]glyph.ID, p.N)
@@ -129,7 +129,7 @@ var BigClasses = []BigClass{
 			return &gtab.Gsub3_1{Cov: CovTable(gg), Alternates: alt}
 		}},
 	{Name: "gsub4_1", Kind: gtab.TypeGsub, Format: 41, Lo: 1000, Hi: 2700, OvfLo: 2800, OvfHi: 3200,
-		Site: "Gsub4_1.coverageOffset", PerN: 1,
+		Site: "Gsub4_1.coverageOffset", 
 		Build: func(p BigParams) gtab.Subtable {
 			gg := p.glyphs(p.N)
 			repl := make([][]gtab.Ligature, p.N)
@@ -142,19 +142,19 @@ var BigClasses = []BigClass{
 			return &gtab.Gsub4_1{Cov: CovTable(gg), Repl: repl}
 		}},
 	{Name: "gsub5_1", Kind: gtab.TypeGsub, Format: 51, Lo: 1500, Hi: 3600, OvfLo: 3700, OvfHi: 4000,
-		Site: "SeqContext1.seqRuleSetOffset", PerN: 1, Build: bigSeqContext1},
-	{Name: "gsub5_2", Kind: gtab.TypeGsub, Format: 52, Lo: 1500, Hi: 3600, OvfLo: 3700, OvfHi: 4000,
-		Site: "SeqContext2.classDefOffset", PerN: 1, Build: bigSeqContext2},
-	{Name: "gsub5_3", Kind: gtab.TypeGsub, Format: 53, Lo: 6000, Hi: 10000, OvfLo: 16500, OvfHi: 16900,
-		Site: "SeqContext3.coverageOffset", PerN: 1, Build: bigSeqContext3},
-	{Name: "gsub6_1", Kind: gtab.TypeGsub, Format: 61, Lo: 1200, Hi: 2700, OvfLo: 2800, OvfHi: 3100,
-		Site: "ChainedSeqContext1.ruleSetOffset", PerN: 1, Build: bigChained1},
-	{Name: "gsub6_2", Kind: gtab.TypeGsub, Format: 62, Lo: 1200, Hi: 2450, OvfLo: 2600, OvfHi: 2900,
-		Site: "ChainedSeqContext2.ruleSetOffset", PerN: 1, Build: bigChained2},
-	{Name: "gsub6_3", Kind: gtab.TypeGsub, Format: 63, Lo: 6000, Hi: 10000, OvfLo: 16500, OvfHi: 16900,
-		Site: "ChainedSeqContext3.coverageOffset", PerN: 1, Build: bigChained3},
-	{Name: "gsub8_1", Kind: gtab.TypeGsub, Format: 81, Lo: 6000, Hi: 10000, OvfLo: 16500, OvfHi: 16900,
-		Site: "Gsub8_1.coverageOffset", PerN: 1,
+		Site: "SeqContext1.seqRuleSetOffset",  Build: bigSeqContext1},
+	{Name: "gsub5_2", Kind: gtab.TypeGsub, Format: 52, Lo: 1500, Hi: 3200, OvfLo: 3700, OvfHi: 4000,
+		Site: "SeqContext2.classDefOffset",  Build: bigSeqContext2},
+	{Name: "gsub5_3", Kind: gtab.TypeGsub, Format: 53, Lo: 6000, Hi: 16000, OvfLo: 16500, OvfHi: 16900,
+		Site: "SeqContext3.coverageOffset", Scattered: true, Build: bigSeqContext3},
+	{Name: "gsub6_1", Kind: gtab.TypeGsub, Format: 61, Lo: 1200, Hi: 2450, OvfLo: 2800, OvfHi: 3100,
+		Site: "ChainedSeqContext1.ruleSetOffset",  Build: bigChained1},
+	{Name: "gsub6_2", Kind: gtab.TypeGsub, Format: 62, Lo: 1200, Hi: 2100, OvfLo: 2600, OvfHi: 2900,
+		Site: "ChainedSeqContext2.ruleSetOffset",  Build: bigChained2},
+	{Name: "gsub6_3", Kind: gtab.TypeGsub, Format: 63, Lo: 6000, Hi: 16000, OvfLo: 16500, OvfHi: 16900,
+		Site: "ChainedSeqContext3.coverageOffset", Scattered: true, Build: bigChained3},
+	{Name: "gsub8_1", Kind: gtab.TypeGsub, Format: 81, Lo: 6000, Hi: 16000, OvfLo: 16500, OvfHi: 16900,
+		Site: "Gsub8_1.coverageOffset", Scattered: true,
 		Build: func(p BigParams) gtab.Subtable {
 			gg := p.scattered(p.N, 0)
 			sub := make([]glyph.ID, p.N)
@@ -170,7 +170,7 @@ var BigClasses = []BigClass{
 		}},
 
 	{Name: "gpos1_2", Kind: gtab.TypeGpos, Format: 12, Lo: 6000, Hi: 16000, OvfLo: 16500, OvfHi: 17000,
-		Site: "Gpos1_2.coverageOffset", PerN: 1,
+		Site: "Gpos1_2.coverageOffset", 
 		Build: func(p BigParams) gtab.Subtable {
 			gg := p.glyphs(p.N)
 			adj := make([]*gtab.GposValueRecord, p.N)
@@ -179,8 +179,8 @@ var BigClasses = []BigClass{
 			}
 			return &gtab.Gpos1_2{Cov: CovTable(gg), Adjust: adj}
 		}},
-	{Name: "gpos2_1", Kind: gtab.TypeGpos, Format: 21, Lo: 2000, Hi: 4600, OvfLo: 4800, OvfHi: 5200,
-		Site: "Gpos2_1.pairSetOffset", PerN: 1,
+	{Name: "gpos2_1", Kind: gtab.TypeGpos, Format: 21, Lo: 2000, Hi: 4600, OvfLo: 5500, OvfHi: 5900,
+		Site: "Gpos2_1.pairSetOffset", 
 		Build: func(p BigParams) gtab.Subtable {
 			gg := p.glyphs(p.N)
 			res := make(gtab.Gpos2_1, 2*p.N)
@@ -195,7 +195,7 @@ var BigClasses = []BigClass{
 			return res
 		}},
 	{Name: "gpos2_2", Kind: gtab.TypeGpos, Format: 22, Lo: 60, Hi: 127, OvfLo: 130, OvfHi: 200,
-		Site: "Gpos2_2.coverageOffset", PerN: 2,
+		Site: "Gpos2_2.coverageOffset", 
 		Build: func(p BigParams) gtab.Subtable {
 			k := p.N
 			g1 := p.glyphs(k)
@@ -214,7 +214,7 @@ var BigClasses = []BigClass{
 			return &gtab.Gpos2_2{Cov: CovSet(g1), Class1: classesUpTo(g1), Class2: classesUpTo(g2), Adjust: adj}
 		}},
 	{Name: "gpos3_1", Kind: gtab.TypeGpos, Format: 31, Lo: 2000, Hi: 4000, OvfLo: 4200, OvfHi: 4600,
-		Site: "Gpos3_1.anchorOffset", PerN: 1,
+		Site: "Gpos3_1.anchorOffset", 
 		Build: func(p BigParams) gtab.Subtable {
 			gg := p.glyphs(p.N)
 			recs := make([]gtab.EntryExitRecord, p.N)
@@ -224,43 +224,43 @@ var BigClasses = []BigClass{
 			}
 			return &gtab.Gpos3_1{Cov: CovTable(gg), Records: recs}
 		}},
-	{Name: "gpos4_1", Kind: gtab.TypeGpos, Format: 41, Lo: 2000, Hi: 6400, OvfLo: 6600, OvfHi: 7000,
-		Site: "Gpos4_1.markArray", PerN: 1,
+	{Name: "gpos4_1", Kind: gtab.TypeGpos, Format: 41, Lo: 2000, Hi: 5400, OvfLo: 6600, OvfHi: 7000,
+		Site: "Gpos4_1.markArray", 
 		Build: func(p BigParams) gtab.Subtable {
 			marks, recs, targets, rows := bigMarks(p, p.N, 40, 2)
 			return &gtab.Gpos4_1{MarkCov: CovTable(marks), BaseCov: CovTable(targets), MarkArray: recs, BaseArray: rows}
 		}},
 	{Name: "gpos4_1b", Kind: gtab.TypeGpos, Format: 41, Lo: 1000, Hi: 2700, OvfLo: 2800, OvfHi: 3200,
-		Site: "Gpos4_1.baseArray", PerN: 1,
+		Site: "Gpos4_1.baseArray", 
 		Build: func(p BigParams) gtab.Subtable {
 			// N base glyphs x 3 mark classes, all anchors present
 			marks, recs, targets, rows := bigMarks(p, 30, p.N, 3)
 			return &gtab.Gpos4_1{MarkCov: CovTable(marks), BaseCov: CovTable(targets), MarkArray: recs, BaseArray: rows}
 		}},
-	{Name: "gpos6_1", Kind: gtab.TypeGpos, Format: 61, Lo: 2000, Hi: 6400, OvfLo: 6600, OvfHi: 7000,
-		Site: "Gpos6_1.mark1Array", PerN: 1,
+	{Name: "gpos6_1", Kind: gtab.TypeGpos, Format: 61, Lo: 2000, Hi: 5400, OvfLo: 6600, OvfHi: 7000,
+		Site: "Gpos6_1.mark1Array", 
 		Build: func(p BigParams) gtab.Subtable {
 			marks, recs, targets, rows := bigMarks(p, p.N, 40, 2)
 			return &gtab.Gpos6_1{Mark1Cov: CovTable(marks), Mark2Cov: CovTable(targets), Mark1Array: recs, Mark2Array: rows}
 		}},
 	{Name: "gpos6_1b", Kind: gtab.TypeGpos, Format: 61, Lo: 1000, Hi: 2700, OvfLo: 2800, OvfHi: 3200,
-		Site: "Gpos6_1.mark2Array", PerN: 1,
+		Site: "Gpos6_1.mark2Array", 
 		Build: func(p BigParams) gtab.Subtable {
 			marks, recs, targets, rows := bigMarks(p, 30, p.N, 3)
 			return &gtab.Gpos6_1{Mark1Cov: CovTable(marks), Mark2Cov: CovTable(targets), Mark1Array: recs, Mark2Array: rows}
 		}},
 	{Name: "gpos7_1", Kind: gtab.TypeGpos, Format: 71, Lo: 1500, Hi: 3600, OvfLo: 3700, OvfHi: 4000,
-		Site: "SeqContext1.seqRuleSetOffset", PerN: 1, Build: bigSeqContext1},
-	{Name: "gpos7_2", Kind: gtab.TypeGpos, Format: 72, Lo: 1500, Hi: 3600, OvfLo: 3700, OvfHi: 4000,
-		Site: "SeqContext2.classDefOffset", PerN: 1, Build: bigSeqContext2},
-	{Name: "gpos7_3", Kind: gtab.TypeGpos, Format: 73, Lo: 6000, Hi: 10000, OvfLo: 16500, OvfHi: 16900,
-		Site: "SeqContext3.coverageOffset", PerN: 1, Build: bigSeqContext3},
-	{Name: "gpos8_1", Kind: gtab.TypeGpos, Format: 81, Lo: 1200, Hi: 2700, OvfLo: 2800, OvfHi: 3100,
-		Site: "ChainedSeqContext1.ruleSetOffset", PerN: 1, Build: bigChained1},
-	{Name: "gpos8_2", Kind: gtab.TypeGpos, Format: 82, Lo: 1200, Hi: 2450, OvfLo: 2600, OvfHi: 2900,
-		Site: "ChainedSeqContext2.ruleSetOffset", PerN: 1, Build: bigChained2},
-	{Name: "gpos8_3", Kind: gtab.TypeGpos, Format: 83, Lo: 6000, Hi: 10000, OvfLo: 16500, OvfHi: 16900,
-		Site: "ChainedSeqContext3.coverageOffset", PerN: 1, Build: bigChained3},
+		Site: "SeqContext1.seqRuleSetOffset",  Build: bigSeqContext1},
+	{Name: "gpos7_2", Kind: gtab.TypeGpos, Format: 72, Lo: 1500, Hi: 3200, OvfLo: 3700, OvfHi: 4000,
+		Site: "SeqContext2.classDefOffset",  Build: bigSeqContext2},
+	{Name: "gpos7_3", Kind: gtab.TypeGpos, Format: 73, Lo: 6000, Hi: 16000, OvfLo: 16500, OvfHi: 16900,
+		Site: "SeqContext3.coverageOffset", Scattered: true, Build: bigSeqContext3},
+	{Name: "gpos8_1", Kind: gtab.TypeGpos, Format: 81, Lo: 1200, Hi: 2450, OvfLo: 2800, OvfHi: 3100,
+		Site: "ChainedSeqContext1.ruleSetOffset",  Build: bigChained1},
+	{Name: "gpos8_2", Kind: gtab.TypeGpos, Format: 82, Lo: 1200, Hi: 2100, OvfLo: 2600, OvfHi: 2900,
+		Site: "ChainedSeqContext2.ruleSetOffset",  Build: bigChained2},
+	{Name: "gpos8_3", Kind: gtab.TypeGpos, Format: 83, Lo: 6000, Hi: 16000, OvfLo: 16500, OvfHi: 16900,
+		Site: "ChainedSeqContext3.coverageOffset", Scattered: true, Build: bigChained3},
 }
 
 // bigMarks builds m mark records (2 classes... k classes) and a b x k anchor
@@ -374,8 +374,8 @@ const (
 	SiteLookupOffset = "LookupList.lookupOffset"
 )
 
-// drawBigParams draws the parameters of one large subtable; n is taken from
-// lo..hi, capped so that the glyph ids stay in range.
+// drawBigParams draws the parameters of one large subtable; N is taken from
+// lo..hi, capped so that the glyph ids stay in the 16-bit range.
 func (c *gctx) drawBigParams(label string, bc *BigClass, lo, hi int) BigParams {
 	t := c.t
 	var strides []int
@@ -389,29 +389,27 @@ func (c *gctx) drawBigParams(label string, bc *BigClass, lo, hi int) BigParams {
 	default:
 		strides = []int{1, 2}
 	}
-	sum := 0
-	for _, s := range strides {
-		sum += s + 1 // "scattered" adds one to every stride
+	spanOf := func(strides []int, n int) int {
+		sum := 0
+		for _, s := range strides {
+			sum += s
+			if bc.Scattered {
+				sum++
+			}
+		}
+		return (n*sum + len(strides) - 1) / len(strides)
 	}
-	// worst case span per element, including shifts used by the builders
-	maxN := (0xFFFF - 16) * len(strides) / sum / bc.PerN
-	if hi > maxN {
-		if lo > maxN { // pattern too sparse for this class: use single steps
-			strides = []int{1}
-			maxN = (0xFFFF - 16) / 2 / bc.PerN
-		}
-		if hi > maxN {
-			hi = maxN
-		}
-		if lo > hi {
-			lo = hi
-		}
+	const room = 0xFFFF - 16 // the builders shift some spreads by up to 3
+	if spanOf(strides, lo) > room {
+		strides = []int{1} // pattern too sparse for this class
+	}
+	for hi > lo && spanOf(strides, hi) > room {
+		hi = lo + (hi-lo)/2
 	}
 	n := rapid.IntRange(lo, hi).Draw(t, label+"N")
-	span := n * bc.PerN * sum / len(strides)
-	start := rapid.IntRange(0, max(0, 0xFFFF-16-span)).Draw(t, label+"Start")
-	if c.chance(label+"Start0", 1, 3) {
-		start = 0
+	start := 0
+	if !c.chance(label+"Start0", 1, 3) {
+		start = rapid.IntRange(0, max(0, room-spanOf(strides, n))).Draw(t, label+"Start")
 	}
 	return BigParams{N: n, Start: start, Strides: strides, Salt: rapid.IntRange(0, 9999).Draw(t, label+"Salt")}
 }
@@ -478,10 +476,16 @@ func (c *gctx) bigList(res *Result, types []uint16, by map[uint16][]Format) {
 			break
 		}
 		addSmall(nSmall(0, 2))
-		slots = append(slots, slot{big: pick(), many: -rapid.IntRange(2, 4).Draw(t, "nBigSubtables")})
+		slots = append(slots, slot{big: pick(), many: -rapid.IntRange(3, 4).Draw(t, "nBigSubtables")})
 		addSmall(nSmall(0, 2))
-		res.Overflow = nil
+		res.Sites = append(res.Sites, SiteSubtableOffset)
 	case "big-lookups":
+		if c.skip(SiteLookupOffset) {
+			layout = "one-big"
+			slots = append(slots, slot{big: pick()})
+			break
+		}
+		res.Sites = append(res.Sites, SiteLookupOffset)
 		addSmall(nSmall(0, 2))
 		k := rapid.IntRange(2, 5).Draw(t, "nBigLookups")
 		for i := 0; i < k; i++ {
@@ -522,8 +526,6 @@ func (c *gctx) bigList(res *Result, types []uint16, by map[uint16][]Format) {
 	c.label("layout:" + layout)
 
 	c.n = len(slots)
-	total := 0     // rough size of everything before the current lookup
-	needExt := false
 	for c.idx = 0; c.idx < c.n; c.idx++ {
 		s := slots[c.idx]
 		switch {
@@ -540,15 +542,17 @@ func (c *gctx) bigList(res *Result, types []uint16, by map[uint16][]Format) {
 				if s.ovf {
 					lo, hi = bc.OvfLo, bc.OvfHi
 					res.Overflow = append(res.Overflow, bc.Site)
+					res.Sites = append(res.Sites, bc.Site)
 					c.label("overflow:" + bc.Site)
 				}
 				if nSub > 1 && lo < hi {
-					// keep each of several subtables above ~24 KiB so that two
-					// of them already exceed 64 KiB together with a third
+					// upper half of the range: every class then yields more
+					// than 33 KiB, so the third subtable starts beyond 64 KiB
 					lo = lo + (hi-lo)/2
 				}
 				p := c.drawBigParams(fmt.Sprintf("big%d", j), bc, lo, hi)
 				lt.Subtables = append(lt.Subtables, bc.Build(p))
+				res.Desc = append(res.Desc, fmt.Sprintf("lookup %d subtable %d = BigClass %s %+v", c.idx, j, bc.Name, p))
 				c.label("big:" + bc.Name)
 				c.label("fmt:" + kindName(c.opt.Kind) + bc.Format.String())
 			}
@@ -556,10 +560,6 @@ func (c *gctx) bigList(res *Result, types []uint16, by map[uint16][]Format) {
 				c.label("big:several-subtables-in-one-lookup")
 			}
 			res.List = append(res.List, lt)
-			if total > 0xFFFF {
-				needExt = true
-			}
-			total += 30000 // lower bound, only used for the label below
 		case s.many > 0:
 			tp := rapid.SampledFrom(types).Draw(t, "tinyType")
 			f := by[tp][0]
@@ -574,12 +574,10 @@ func (c *gctx) bigList(res *Result, types []uint16, by map[uint16][]Format) {
 				lt.Subtables = append(lt.Subtables, protos[j%k])
 			}
 			c.label("big:many-subtables")
+			res.Desc = append(res.Desc, fmt.Sprintf("lookup %d = %d subtables cycling through the first %d", c.idx, s.many, k))
 			res.List = append(res.List, lt)
 		default:
 			res.List = append(res.List, c.lookup(types, by))
 		}
-	}
-	if needExt {
-		res.NeedsExtension = true
 	}
 }
